@@ -68,6 +68,7 @@ def replay_history(case) -> List[Tuple[str, str]]:
             turn = step["turn"]
             ids = list(step["approved"])
             store.new_turn(batch_raises=step["batch_fails"], single_raises={DELTA_IDS[i] for i in step["single_fails"]})
+            store.report = step.get("report", "counts")
             # one live entry per known namespace before the apply
             for ns in consts["AllNamespaces"]:
                 cm.invalidate_namespace(ns)
@@ -195,7 +196,8 @@ def check(run) -> None:
     cases = []
     for (cadence, bust, ns, start) in settings:
         consts = {"Deltas": [1, 2, 3] if nturns == 2 else [1, 2], "NTurns": nturns, "Start": start, "Cadence": cadence, "Bust": bust,
-                  "Namespaces": ns, "AllNamespaces": ["t2:semantic", "x:other"]}
+                  "Namespaces": ns, "AllNamespaces": ["t2:semantic", "x:other"],
+                  "Reports": (["counts", "none", "empty", "edits_none"] if not q else (["counts", "edits_none", "none"] if (cadence == 1 and bust) else ["counts"]))}
         cfg = make_cfg(consts, invs, [], emit=False, view=None, constraint="EmitDone")
         res = run.tlc("ApplyCommit", cfg, name=f"ApplyCommit_c{cadence}_b{int(bust)}_n{len(ns)}_s{start}", workers=4, timeout_s=900)
         run.model_must_hold(res)
